@@ -29,9 +29,22 @@ def run_case(c, d):
     for name, text in c['files'].items():
         with open(os.path.join(d, name), 'w', encoding='utf-8', newline='') as fh:
             fh.write(text)
+    # a file that merely has the *name* under which a vanished file was recorded (relative), in a directory of the import path
+    onpath = os.path.join(d, 'onpath')
+    os.makedirs(onpath, exist_ok=True)
+    with open(os.path.join(onpath, 'relgone.py'), 'w') as fh:
+        fh.write('# an unrelated file\ndef other():\n    return 0\n\n\nX = 1\n')
+    sys.path.insert(0, onpath)
+    try:
+        return run_case2(c, d)
+    finally:
+        sys.path.remove(onpath)
+
+
+def run_case2(c, d):
     stats = {}
     for fn, first, name, entries in c['stats']:
-        path = os.path.join(d, fn)
+        path = fn if fn.startswith('rel') else os.path.join(d, fn)
         stats[(path, first, name)] = [tuple(e) for e in entries]
     unit = c['unit']
     ou = c['output_unit']
